@@ -116,3 +116,22 @@ func (c *Case) CheckGuards(what string, gs ...*Guard) bool {
 	c.x.events["guard_checks"] += int64(len(gs))
 	return ok
 }
+
+// Off returns a slice of n bytes (len == cap) that starts off bytes after the lower
+// guard page. Neither end abuts a guard page (canaries still surround it); its purpose
+// is a start address with a chosen misalignment: Hi and Lo hand out 16-byte aligned
+// starts whenever n is a multiple of 16, which hides aligned-load instructions used on
+// caller memory.
+func (g *Guard) Off(n, off int) []byte {
+	g.refill()
+	if off+n > len(g.rw) {
+		off = len(g.rw) - n
+	}
+	g.lo, g.hi = off, off+n
+	return g.rw[g.lo:g.hi:g.hi]
+}
+
+// HiOff is Hi shifted down by off bytes: the end is off bytes before the upper guard page.
+func (g *Guard) HiOff(n, off int) []byte {
+	return g.Off(n, len(g.rw)-n-off)
+}
